@@ -33,7 +33,7 @@ reg('C03', 'exploration',
     'Every record length 1..6000 (single-record files, blocked and unblocked, class and convenience APIs) is enumerated in '
     'both tiers; multi-record lists put a length prefix or record end on every offset within +-4 of a 1012-byte payload '
     'boundary; content classes include 0x00/0x40 runs. File bytes are compared with ref.vbs / the blocked payload model and the '
-    'records read back (from the real and from the reference file) with the input. Held on the executions produced.',
+    'records read back (from the real and from the reference file, the reader walked in eight styles incl. next-then-for and for/break/for) with the input; the live MAX_VBS_RECORD_LENGTH is also set to 3 000 / 6 500 / 10 000 at run time with records at the new maximum. Held on the executions produced.',
     'Trusts vmon/ref/blocking.py, io.BytesIO. Records are non-empty and at most 6000 bytes.')
 
 reg('C09', 'fault_enumeration',
@@ -94,7 +94,7 @@ reg('C02', 'exploration',
     'C01 workload is reused and widened on the encode side (short fixed text, numbers as strings, decimals in exponent form, ISO date strings, empty/None '
     'values). Decode is judged on bytes produced by the reference encoder so a symmetric error cannot cancel. Over-long '
     'variable values (100..999 / 1000..5000 characters, text and bytes) must be refused while the longest representable '
-    'value still encodes. Held on the executions produced.',
+    'value still encodes. Every decoded dict without PDS data is fed back into dumps and must give the same wire image; dumps is also called from 6 threads at once (1 microsecond switch interval, inconclusive unless the calls alternated) and every result compared with the reference image. Held on the executions produced.',
     'Trusts vmon/ref/codec.py (validated at setup against the wire images pinned by the repository tests), python codecs, re, strptime.')
 
 reg('C12', 'exploration',
@@ -111,7 +111,7 @@ reg('C16', 'exploration',
     'seeded Latin-1 ones. Decode: the processor is placed on each variable-length (and each wide fixed-width) text element of the packaged configuration in '
     'turn (and on generated configurations), latin_1 / cp500 / cp037, through loads, IpmReader and blocked IpmReader; the '
     'element must come back masked / as its nine-character prefix and the clear number (whole, without check digit, middle '
-    'digits; as text, bytes or hex) must occur in no value of the returned dict. Held on the executions produced.',
+    'digits; as text, bytes or hex) must occur in no value of the returned dict; card numbers with separators or letters, and masking switched on in a configuration object that was already used for a decode, are part of every run. Held on the executions produced.',
     'Trusts vmon/ref/codec.py encoder and vmon/ref/blocking.py to build the inputs. Other elements are letters-only so a hit is a leak.')
 
 reg('C17', 'exploration',
@@ -130,7 +130,7 @@ reg('C07', 'fault_enumeration',
     'all 256 values, every length field rewritten to negative / zero / at-over-far-over spellings, the content of every typed element replaced by 35 special words (NaN, Infinity, exponents, impossible dates), truncation at every offset, '
     'seeded multi-point mutation, random byte strings; the same at file level (record prefixes, block trailers, terminator, '
     'embedded message faults) through both readers and both extraction tools in-process, and the two extraction commands as real '
-    'processes (no traceback on stderr); CPU time for 8 MB vs 1 MB of the same records must scale under 24x. Non-termination is decided as bounded '
+    'processes (no traceback on stderr), three tools incl. mideu convert, also on valid-but-awkward files (carriers that are full after sorting, non-numeric PDS tags), 23 ICC tails on every DE55; CPU time for 8 MB vs 1 MB of the same records must scale under 24x. Non-termination is decided as bounded '
     'progress (20 000 + 100 executed cardutil lines per input byte), not wall-clock.',
     'Bounded progress stands in for termination (worst legitimate path measured < 10 lines/byte). vmon/ref/codec.py lays out the bases. '
     'A hang inside C code that emits no line events would only trip the per-shard wall-clock watchdog (inconclusive).')
@@ -148,7 +148,7 @@ reg('C08', 'fault_enumeration',
 reg('C10', 'fault_enumeration',
     'runtime monitor: real IpmReader and the extraction tool run on files whose k-th record carries an injected fault; records delivered, exception attributes and the operator line observed for every k',
     'n = 1..10 (quick) / 1..12, 17, 25, 40 (thorough) records x every position k x eight ways of walking the reader x nine fault kinds (truncated record, oversized '
-    'length, undecodable MTI, unknown bitmap bit, bad field length, bad typed value, bad PDS content, bad ICC content, trailing '
+    'length, undecodable MTI (a quarter of the lists with records over 2 KB so the whole context is checked), unknown bitmap bit, bad field length, bad typed value, bad PDS content, bad ICC content, trailing '
     'bytes) x {VBS, 1014} x {latin_1, cp500}: exactly k-1 records equal to the strict reference decode, MciIpmDataError with '
     'record_number == k and binary_context_data == prefix + raw bytes of record k, and "Error detected in record k" printed by '
     'mci_ipm_to_csv run in-process on the same file.',
@@ -160,7 +160,7 @@ reg('C06', 'exploration',
     'codecs), VBS and 1014, packaged / variant / generated configurations, three writer APIs: file bytes equal the reference '
     'framing of the reference encodings, and the read-back list satisfies the C01 relation element-wise. Isolation: 2..4 reader '
     'and writer programs (some readers hit an injected fault) driven under seeded schedules at operation granularity, and 8 '
-    'threads with a 1 microsecond switch interval; two round trips of more than 1 and 2 MiB; throwaway configuration copies; each instance\'s trace (records, record_number, last_record, error context, '
+    'threads with a 1 microsecond switch interval; 32 (thorough 192) fresh child processes whose first cardutil calls are the first records of 8 threads; a reader reading through another reader and a reader parked in its source while others must progress; two round trips of more than 1 and 2 MiB; throwaway configuration copies; each instance\'s trace (records, record_number, last_record, error context, '
     'file bytes) must equal its solo trace. The run is inconclusive unless thread alternations were actually observed.',
     'Trusts vmon/ref/codec.py and vmon/ref/blocking.py. Each thread owns its files and message objects. Per-thread step counters.')
 
@@ -168,17 +168,17 @@ reg('C18', 'exploration',
     'runtime monitor: real IpmParamReader and the CSV tool run on synthetic extract files built by placing generated column values at configured positions; returned dicts/CSV compared with the generated values',
     'Extract files with 1..6 tables (the four packaged layouts and generated contiguous / gapped / single-column layouts, including '
     'table ids that differ only in their last characters), random index assignments (also two sub-ids for one table), 0..40 '
-    'rows per table interleaved (some trimmed part-way through a column, some behind 3 000 rows of another table), unindexed / unconfigured noise rows and per-table trailers, x {compressed, expanded} x {latin_1, '
+    'rows per table interleaved, half of the generated layouts listing their columns out of positional order (some rows trimmed part-way through a column, some behind 3 000 rows of another table), unindexed / unconfigured noise rows and per-table trailers, x {compressed, expanded} x {latin_1, '
     'cp500} x {VBS, 1014}, every table of every file requested through the class or the CSV tool; compressed and expanded must '
     'agree on every column; missing index trailer / unconfigured table must raise MciIpmDataError.',
     'Trusts vmon/ref/param.py (validated against the literal rows in the repository tests), vmon/ref/blocking.py and the csv module.')
 
 reg('C19', 'exploration',
-    'runtime monitor: the four conversion tools run (function and cli_run entry points, real files) on writer-produced inputs; converted records read by the real reader and by the reference decoder, then converted back and compared byte for byte',
+    'runtime monitor: the four conversion tools run (function, cli_run and argument-parser entry points, real files) on writer-produced inputs; converted records read by the real reader and by the reference decoder, then converted back and compared byte for byte',
     'All 6 ordered pairs of {latin_1, cp500, cp037} x {vbs,1014}^2 for mci_ipm_encode and mci_ipm_param_encode, both fixed '
     'directions x {blocked, unblocked} for mideu convert and paramconv, 12 (quick) / 150 (thorough) repetitions with fresh '
     'message lists (PDS entries, raw carriers, binary DE55, typed elements, all element subsets) and arbitrary-byte parameter '
-    'records, one input of more than 1 MiB per tool and runs with the documented default arguments: record count, order and values preserved (DE55 byte-identical), output well blocked, and the return conversion '
+    'records, one input of more than 1 MiB per tool runs with the documented default arguments and with the derived output name (input must stay unchanged): record count, order and values preserved (DE55 byte-identical), output well blocked, and the return conversion '
     'reproduces the input file byte for byte.',
     'Trusts vmon/ref/codec.py, vmon/ref/blocking.py; the three codecs are checked to be Latin-1 bijections at run time. For the '
     'legacy converter PDS data are library-packed (it re-packs PDS with the default configuration).')
